@@ -9,6 +9,7 @@
 From Coq Require Import List NArith Bool Arith.
 From Wpull Require Import Model.Engine Model.EngineSim Proofs.EngineProofs Proofs.EngineRun Proofs.EngineFinal
   Proofs.EngineOnce Proofs.EngineTerm Proofs.EngineWitness Proofs.EngineBfs Proofs.EngineBfsWitness.
+From Wpull Require Import Gen.Consts Proofs.ConstsAgree.
 Import ListNotations.
 Open Scope N_scope.
 
@@ -60,15 +61,16 @@ Theorem C01_each_url_requested_once_refuted :
 Proof. exact each_url_requested_once_refuted. Qed.
 Print Assumptions C01_each_url_requested_once_refuted.
 
-(* Every execution is finite: on a finite site (all start URLs and link targets in U) in which no
-   fetch fails, from ANY reachable state (even one reached through kills and restarts) every
+(* Every execution is finite: on a finite site (all start URLs and link targets in U, no page with more than
+   Lmax links) in which no fetch fails, from ANY reachable state (even one reached through kills and restarts) every
    sequence of n kill-free steps satisfies n <= mu, a number computed from the state. *)
 Theorem C01_terminates :
   forall site host in_scope maxredir starts conc, scope_ext_hyp in_scope ->
   forall U, (forall u, In u starts -> In u U) ->
     (forall u code links l, site u = Doc code links -> In l links -> In (fst l) U) ->
+  forall Lmax, (forall u code links, site u = Doc code links -> (length links <= Lmax)%nat) ->
   forall n s s', no_fail site maxredir -> reach site host in_scope maxredir starts conc s ->
-    nsteps_nc site host in_scope maxredir starts conc n s s' -> (n + mu maxredir starts U s' <= mu maxredir starts U s)%nat.
+    nsteps_nc site host in_scope maxredir starts conc n s s' -> (n + mu maxredir starts U Lmax s' <= mu maxredir starts U Lmax s)%nat.
 Proof. exact terminates. Qed.
 Print Assumptions C01_terminates.
 
@@ -131,12 +133,19 @@ Theorem C01_schedule_independent_refuted :
 Proof. exact schedule_independent_refuted. Qed.
 Print Assumptions C01_schedule_independent_refuted.
 
+(* The batch size at which a visit commits its admitted children in the middle of a scrape (Model/Engine.v flush_size) is the one
+   in the source (Gen/Consts.v, regenerated from wpull/pipeline/session.py ItemSession.add_url on every run). *)
+Theorem C01_child_batch_size_is_the_source : N.of_nat flush_size = gen_child_batch_size.
+Proof. exact engine_child_batch_size_agrees. Qed.
+Print Assumptions C01_child_batch_size_is_the_source.
+
 (* Non-vacuity: the concrete filter model satisfies the membership hypothesis; a 6-page site with a
    diamond satisfies no_fail and finiteness; a two-worker schedule on it reaches a quiescent state
    with 5 rows and 5 requests. *)
 Example C01_nonvacuous :
   scope_ext_hyp w2_scope /\ no_fail w2_site 20 /\
   (forall u code links l, w2_site u = Doc code links -> In l links -> In (fst l) [1; 2; 3; 4; 5; 6]) /\
+  (forall u code links, w2_site u = Doc code links -> (length links <= 2)%nat) /\
   reach_nc w2_site w2_host w2_scope 20 [1] 2 (get w2_par) /\
   quiescent w2_site w2_host w2_scope 20 [1] 2 (get w2_par) /\
   length (st_tbl (get w2_par)) = 5%nat /\ all_reqs (st_log (get w2_par)) = [5; 2; 4; 3; 1].
